@@ -1,6 +1,6 @@
 """Per-property configuration of ./check (level, generation rule, what the correspondence is)."""
 
-HOOK_COMMITS = ["f5b1d5244facd014c279423c479633cc3b50fced", "3268006", "35263043bf6b5f4fd4fd4db82c5d5667fb3b1627", "271a2157aed3e04ac2f8ae3450ad240ff780209e", "dd59e1336b5a0e5e9904133fd68242d941c5cae1"]
+HOOK_COMMITS = ["f5b1d5244facd014c279423c479633cc3b50fced", "3268006", "35263043bf6b5f4fd4fd4db82c5d5667fb3b1627", "271a2157aed3e04ac2f8ae3450ad240ff780209e", "dd59e1336b5a0e5e9904133fd68242d941c5cae1", "4e071b4aa7c10fdd7b9386de080e5777a2954bde", "834320745b50f3f381f6bf170e16583dc0615328", "72630d7"]
 
 PROPS = {
     "C01": {
@@ -91,6 +91,19 @@ PROPS = {
         "correspondence": "Table.canonicalize/canonicalizeTy, instantiateCanonical, instantiateBinders*, uCanonicalize, mapFromCanonical, "
                           "Table.invert (lean/ChalkModel/{SFold,Canon,UCanon,Invert}.lean) vs chalk-solve infer::{canonicalize, instantiate, "
                           "ucanonicalize, invert} on a real InferenceTable<ChalkIr>",
+    },
+    "C03": {
+        "level": "proof",
+        "rule": "120 generated Horn-fragment programs (1/5 with coinductive traits) x 6 goals with unknowns (finite and infinite solution sets: structural impls give unbounded streams, "
+                "cut after 8 callbacks); for each: a fresh SLGSolver, solve_multiple with a callback that continues 7 times; (1) the observed callback sequence vs the stream model "
+                "replayed over the root table dumped through the cfg hook (exact); (2) the yielded answers judged by judgeEnumeration (sound / no duplicates / complete when the stream ended); "
+                "non-trivial = at least one callback",
+        "technique": "Lean 4 theorems about an exact model of push_answer / peek / next / solve_multiple (invariant by induction over pushes; callback sequence = valid answers with accurate flag) + certified content checker",
+        "claim": "pushAnswer_nodup (any push sequence), enumerate_eq_filter_and_flag_accurate (the callback sequence is the table's valid answers in order, flag true iff another follows) are "
+                 "proved for the model, which reproduces the real callback sequences exactly on every run; rejected_not_sound / rejected_misses: every content rejection is a certified violation.",
+        "note": "Trusted: Lean kernel, model fidelity (differential through the table-dump hook), horn.rs, Stage-A theorems. The engine that fills the table is not modelled: its content is judged per run. "
+                "Completeness is refutation-complete up to the enumeration bound. Known finding F11 (open) shows up here as an unsound enumerated answer.",
+        "correspondence": "solveMultiple (lean/ChalkModel/AnswerStream.lean) vs SLGSolver::solve_multiple + Table dump; judgeEnumeration vs yielded answers",
     },
     "C04": {
         "level": "translation_validation",
@@ -463,7 +476,7 @@ PROPS = {
                 "arguments over all types of depth <= 1 (50^2, 50^3), built from leaves L0, U0, u32, P0 (impl parameter), () and constructors L1<_>, "
                 "U1<_>, F1<_>, (_,), (_, _); quick: depth <= 1 / leaf x depth-1 pairs / leaf triples; local traits over leaf tuples. Random stream: "
                 "impls over the whole pool (F2, LF1, U2, 1-3-tuples, six scalars, two parameters), depth <= 3, 1/8 local trait. Each impl is checked by "
-                "the real orphan check four times (SLG and recursive solver, at the default size limits and with the limit lifted); request lines are "
+                "the real orphan check four times (SLG and recursive solver, at the default size limits 10 / 30 and with the limit lifted via SolverChoice::slg(100000, None) / recursive(100000, 100)); request lines are "
                 "built from the LOWERED Program (flags of every struct and trait, the impl's trait reference), not from the generator. Second stream: "
                 "the domain goals IsLocal / IsUpstream / IsFullyVisible / DownstreamType (T) as `forall<P0,P1> { Pred(T) }` on every type of depth <= 2 "
                 "(quick <= 1) plus random ones, both solvers. Corpus first. Sharded over 12 child processes. Non-trivial = impl of a remote trait, or "
@@ -482,12 +495,16 @@ PROPS = {
                  "tables above in the thorough tier), exactly, for both solvers.",
         "note": "F5 (built-in types not IsFullyVisible: `impl Remote<Local> for u32` rejected) reproduced by this harness on the unchanged tree (the "
                 "legacy model agreed with the old code on all cases), repaired in /repo (commit 31b536a, status fixed), regression inputs in corpus/C20. "
-                "Open findings reported as KNOWN-FINDING: F5b (IsUpstream not derivable for built-in types; invisible to the orphan check, makes the "
-                "overlap check accept `impl<T> Local for T where T: Remote` + `impl Local for u32`; repair entangled with the compatible-mode rule being "
-                "generated for local traits) and F18 (beyond the solver's max_size the closed orphan goal is answered Ambiguous and "
-                "perform_orphan_check accepts: wrong acceptance of impls with large types at the default limits). Because of F18 the model is compared "
-                "with the default-limit runs only on the tables (all types below the limits) and with the limit-lifted runs everywhere; default-limit "
-                "runs are always judged against the sentence. Trusted: Lean kernel; fidelity of the clause model (differential, exhaustive on the tables); "
+                "F20 (perform_orphan_check took any answer, also Ambiguous, for `allowed`: beyond the solver's max_size - 10 for SLG, 30 recursive - "
+                "the truncated closed goal is answered Ambiguous, so impls of an upstream trait for large upstream-only types were accepted) found by the "
+                "random stream, repaired in /repo (commit 68e435c: only a Unique answer is a proof), status fixed. Open finding reported as "
+                "KNOWN-FINDING: F5b (IsUpstream not derivable for built-in types; invisible to the orphan check, makes the overlap check accept "
+                "`impl<T> Local for T where T: Remote` + `impl Local for u32`; repair entangled with the compatible-mode rule being generated for "
+                "local traits). Size limits: the model is compared with the default-limit runs only on the tables (all types below the limits) and "
+                "with the limit-lifted runs everywhere; a default-limit run that rejects an allowed impl only because its goal is truncated at max_size "
+                "(documented behaviour of a search cut off at the limit) is counted (dropped_*_default_size_limit), not reported; a default-limit run "
+                "that ACCEPTS a forbidden impl is reported. "
+                "Trusted: Lean kernel; fidelity of the clause model (differential, exhaustive on the tables); "
                 "the harness's reading of flags and trait references off the lowered Program; the solvers (only their verdicts on these ground goals "
                 "are used). The model has one constructor for an impl parameter and the placeholder replacing it; #[fundamental] structs without "
                 "parameters (chalk asserts) are outside the fragment; refs, raw pointers, arrays, slices, fn pointers are outside the property's quantifier "
@@ -508,8 +525,12 @@ PROPS = {
                 "conditions on compound types; concrete instances `impl Tr for Ak<u8>`; `impl<T> Tr for *const T`, `for &'static T`; blanket "
                 "`impl<T> Clone for T where T: Copy`; impls for !, str, ()). 10 closed goals `T: Trait` per program, T of depth <= 4 over all thirteen "
                 "type constructors (1/6 bare leaves / ADTs), traits weighted Sized 5 : Copy 5 : Clone 4 : Tuple 1 : FnPtr 1. Each goal goes to fresh "
-                "instances of both solvers, with the size limit lifted (compared with the model, exactly: yes / no / ambig) and at the default "
-                "limits (judged against the rules). Requests are built from the LOWERED Program and Goal (ADT kinds and fields, impl headers and "
+                "instances of both solvers, with the size limit lifted - SolverChoice::slg(100000, None), recursive(100000, 100) - (compared with the "
+                "model, exactly: yes / no / ambig, and judged against the rules) and at the default limits 10 / 30 (judged against the rules; a goal "
+                "the default SLG solver answers Ambiguous only because its type exceeds max_size is documented truncation behaviour, outside the "
+                "property: such goals are dropped for that configuration and counted as dropped_slg_default_size_limit, about 1% of the goals). "
+                "No references under fn pointers (a lifetime there is generalized into a region variable and two derivations with different region "
+                "constraints make the recursive solver answer Ambiguous - the lifetime exemption of the property). Requests are built from the LOWERED Program and Goal (ADT kinds and fields, impl headers and "
                 "where-clauses, goal type as first-order terms). Corpus seeds first. Sharded over 12 child processes. Non-trivial = every goal; "
                 "distinct = distinct request lines",
         "technique": "Lean 4 theorems: clause-by-clause model of add_builtin_program_clauses / sized.rs / copy.rs / clone.rs / tuple.rs / last_field_of_struct / "
@@ -525,15 +546,133 @@ PROPS = {
                  "tuple_trait_iff, fnPtr_trait_iff, scalar_copy_only_by_impl). decide_yes / decide_no: the driver's decision procedure is sound in both "
                  "directions (decide_no and clausesFor_complete under the decidable hypothesis implParamsInHeader = rustc's E0207, without which an "
                  "impl clause has an existential variable). The model's verdict is compared exactly with both real solvers on every run.",
-        "note": "Open finding F18 (KNOWN-FINDING): at its default max_size 10 the SLG solver answers Ambiguous for closed built-in goals over types with "
-                "more than 10 nodes; with the limit lifted both solvers, and the recursive solver at its default limit, agree with the rules on every "
-                "generated goal. Because of it the model is compared with the limit-lifted runs; default-limit runs are judged against the rules. "
-                "Trusted: Lean kernel; fidelity of the clause model (differential only); the harness's translation of the lowered Program/Goal into "
+        "note": "No open finding. Trusted: Lean kernel; fidelity of the clause model (differential only); the harness's translation of the lowered Program/Goal into "
                 "terms (lifetimes, array lengths, fn-pointer ABI/binders dropped: none of the modelled clauses reads them; all references are 'static); "
                 "the generator never produces unions (no syntax), closures, coroutines, foreign/opaque/associated types, inference variables - the "
                 "arms of sized.rs/copy.rs for those are not modelled. In chalk scalars, references, raw pointers and ! are NOT Copy/Clone by a "
                 "built-in clause (copy.rs: `these impls are in libcore`); the spec follows that reading (scalar_copy_only_by_impl).",
         "correspondence": "Builtin.decideGoal over Builtin.clausesFor (lean/ChalkModel/Builtin.lean) vs Solver::solve (SLG, recursive) on closed goals `T: Sized|Copy|Clone|Tuple|FnPtr`",
         "timeout": 3600,
+    },
+    "C22": {
+        "level": "proof",
+        "rule": "programs as text from four sources: (i) corpus/C22 (one input per finding); (ii) every `program { .. }` block of /repo/tests/display/*.rs and "
+                "/repo/tests/test/*.rs extracted at run time with a brace matcher (~530); (iii) mutations of those (item shuffle/drop/duplicate, a scalar type replaced by "
+                "one of 12 other types, an attribute added); (iv) an own generator over every item kind the writer knows: structs/enums with type/lifetime/const "
+                "parameters, #[upstream] #[fundamental] #[phantom_data] #[one_zst] #[variance(..)] #[repr(C|packed|int)], fields and tuple/struct/unit variants; traits "
+                "with all seven flags, 20 #[lang(..)] attributes, parameters, where-clauses, associated types with own parameters, (quantified, alias-eq) bounds and "
+                "where-clauses; impls positive/negative/#[upstream] with parameters, where-clauses and (default) associated values; opaque types with bounds and "
+                "where-clauses; fn items with unsafe / extern \"C\" / variadic; where-clauses Implemented, `T: Tr<A = U>`, `'a: 'b`, `T: 'a`, `forall<'a>`; types: ADT "
+                "application, 18 scalars, tuples incl. () and (T,), & / &mut with lifetimes, *const / *mut, slices, arrays with literal and const-parameter lengths, fn "
+                "pointers incl. for<'a>, projections <T as Tr<..>>::A<..>, dyn with 1-2 (quantified, alias-eq) bounds, !, str, opaque types; half of the generated "
+                "programs are restricted to the modelled fragment. Each program is lowered by the real chalk, rendered with the real write_items over all item ids "
+                "(as tests/display/util.rs), the text is reparsed and lowered, the two Programs are compared field by field with every where-clause list (also inside "
+                "dyn) as a set, and rendered again (byte comparison). Programs with closures, coroutines, foreign types or custom clauses are skipped (not items the "
+                "writer prints). Model lines for every program inside the modelled fragment: print (token list of the first rendering), reprint (the model parses its "
+                "own output, applies lowering's alias-eq expansion, prints again: token list of the real SECOND rendering), check-wf (hypotheses WfProgram, Lowered "
+                "and conclusions of the theorems evaluated by the model on the real program). Non-trivial = rendered text longer than 40 characters; distinct = distinct "
+                "request lines",
+        "technique": "Lean 4 theorems about an executable model of the writer (RenderAsRust impls, InternalWriterState, IdAliasStore) and of a parser for its token language "
+                     "(mutual structural induction over the six syntactic categories in continuation form, fuel bounds, state-faithfulness invariant; refutation by witness "
+                     "where the code violates the property) + exact differential correspondence of token lists for first and second rendering + the property evaluated "
+                     "directly on the real writer / parser / lowering",
+        "claim": "PROVED for every well-formed program of the fragment {struct and enum declarations with type/lifetime/const parameters, all ADT flags and reprs, fields, "
+                 "where-clauses; traits with all flags, #[object_safe], #[lang(..)], parameters, where-clauses, associated types with own parameters, quantified trait / "
+                 "alias-eq bounds and where-clauses; impls positive/negative/#[upstream] with parameters, where-clauses and associated type values} over the types {ADT "
+                 "application, scalars, tuples, & / &mut, raw pointers, slices, arrays, fn pointers with for<..>, projections, dyn with a non-empty list of (quantified, "
+                 "alias-eq) bounds and a lifetime, !, str, bound variables} and where-clauses {Implemented, AliasEq, lifetime outlives, type outlives, forall<..>}: "
+                 "parseTy_printTy (types round-trip in every faithful parser state; continuation form parseTy_printTy_cont, parseBounds_printBounds), "
+                 "parseQWC_printQWC / parseWhere_printWhere, parseItem_printItem, parse_print (parseProgram (print p) = some p), reparse_equiv + parse_print_equiv (the "
+                 "reparsed-and-lowered program is equivalent: same items, where-clause lists and dyn bound lists as sets, given that alias-eq clauses come with their "
+                 "implied trait bound, which lowering always produces), print_stable_partial(+_parsed) (second rendering = first when there is no alias-eq clause / "
+                 "bound). The sentence 'rendering the reparsed program once more reproduces it exactly' is REFUTED at full strength by print_stable_refuted (machine-"
+                 "checked witness `struct Foo<T> where T: Baux<Assoc = T>`): every round trip adds the implied trait bound once more - false of the model because it is "
+                 "false of the code (finding F22d). Well-formedness (WfProgram: scoping and kinds of bound variables, binder shapes) and Lowered are decidable, have "
+                 "non-trivial witnesses (exBig, exMore) and are evaluated by the model on every real program of the fragment in every run (all satisfied). PARTIAL "
+                 "outside the fragment (differential / direct check only): opaque types, fn items, fn-def types, fn-pointer signatures other than safe/Rust, #[variance], "
+                 "#[lang] on associated types, int/float parameter kinds are outside the MODEL (counted as unmodelled_features); closures, coroutines, foreign types, "
+                 "custom clauses are outside the writer. The direct property check on the real code covers everything the writer prints.",
+        "note": "Model: two layers. Layer 1 = order of alias_for_id_name calls (incl. display_type_with_generics rendering its parameters eagerly) + IdAliasStore; layer 2 = "
+                "printing over final names. Theorems are about layer 2 (programs whose ids are their final names) and about structured tokens (Tok: keyword, item name, "
+                "_d_i, '_d_i, Self, number, field_i / variant_i); the lexer (text <-> Tok) and layer 1 are validated differentially only. The parser model decodes the "
+                "canonical variable names with the writer's own state discipline (it is a parser for the writer's output, not a model of parser.lalrpop); lowering's "
+                "effect on a reparsed program is modelled by Display.reparse (alias-eq expansion) and validated through the reprint lines. Findings of this check on the "
+                "unchanged tree - repaired in /repo, one commit each, repo suite passing: #[lang(pointee)] (e16cbb1), '_ for 'erased (f7fd928), #[one_zst] dropped "
+                "(8b04f1b), #[variance] dropped (af98d71), #[lang] on associated types dropped (3dd44db), int/float parameter kinds dropped (f881981); open (known "
+                "findings, inputs in corpus/C22): F22d second_rendering_repeats_implied_trait_bound (documented by the `produces` tests of tests/display; repairing it "
+                "changes five expected outputs), F22f fn_signature_qualifiers_not_printed, F22g opaque_type_where_clauses_not_printed, F22h same_named_items_renamed "
+                "(associated types named alike in two traits come back as Item_1), F22j fn_def_type_printed_as_placeholder. Trusted: Lean kernel, model fidelity "
+                "(differential), harness (tokeniser, serialiser, Program comparison with its cause analysis).",
+        "correspondence": "Display.writeItems / Parse.parseProgram / Display.reparse (lean/ChalkModel/{Display,Parse}.lean) vs chalk_solve::display::write_items, "
+                          "chalk_parse + chalk_integration lowering, second write_items",
+    },
+    "C23": {
+        "level": "proof",
+        "rule": "programs: 1/2 auto-trait programs (#[auto] trait Send [, Sync], unit structs, generic structs with 0-2 fields over parameters / other structs / u32, "
+                "0-3 explicit positive / conditional / negative impls for instantiations of the generic structs or for unit structs, an ordinary trait whose impls "
+                "depend on the auto trait), 1/4 Horn-fragment programs of progen.rs (1/4 of them with #[coinductive] traits), 1/4 associated-type programs (trait Tr "
+                "{ type Item; }, impls with values incl. <T as Tr>::Item, a trait bounded by Tr<Item = B>); 1-4 goals per program (ground atoms, conjunctions, not, "
+                "forall/if, exists goals, Normalize / projection-equality goals); per solver (SLG, recursive; recursive skipped on coinductive/auto programs for goals "
+                "with unknowns: F12) every goal is solved through ONE LoggingRustIrDatabase with a fresh solver per goal, the wrapper's Display text is lowered, every "
+                "goal is lowered against it and solved by a fresh solver, answers are compared through the name-based Display of the Solution; corpus/C23 (F9a, F9b "
+                "inputs) first. Model lines: for ground goals of Horn-fragment programs the answer obtained on the ORIGINAL program is judged by the certified Stage-A "
+                "evaluator (a) against the Horn clauses of the LOGGED program (judge-ground) and (b) against the original program restricted by the model "
+                "(judge-restricted: Logging.restrict P (Logging.needs P g)). Non-trivial = every judged answer; distinct = distinct request lines",
+        "technique": "Lean 4 theorems (restriction lemma on the Horn-clause semantics of Sem.lean, both fixed-point strata, closed-set / consistent-set argument; executable "
+                     "reachability with a counting argument; item-level model of auto-trait lowering) + differential runs of the real wrapper with both real solvers + "
+                     "certified checker (Stage-A evaluator) applied to the logged program",
+        "claim": "PROOF for the restriction lemma: sol_restrict (any log Q between the clauses reachable from the goal's predicates and P has Holds Q G a <-> Holds P G a for every "
+                 "reachable atom, any hypotheses), sol_restrict_instance(+_co) (instance-level, symmetric form matching could_match-filtered impls_for_trait: P and Q need "
+                 "only agree on the clauses with a head instance in a set of atoms closed under P's clauses), goal_restrict (all goals incl. not / if), restrict_needs(+_cert), "
+                 "needs_closed, needs_exact (the executable `needs` is exactly the reachable predicate set and restricting to it preserves every goal's truth value, "
+                 "unconditionally), lowerAuto_sublist_of_faithful (what the wrapper must additionally record for auto traits: if the log's items are among the original's and "
+                 "the log is SuppressionFaithful - an explicit impl of auto trait t for ADT s is present in the log iff one is present in the original, for all t, s of the log - "
+                 "then the lowered log is a sub-program of the lowered original), auto_log_without_suppressing_impl_differs / auto_log_changes_answer (F9a machine-checked on "
+                 "the model: without the suppressing impl the log gains the default clause and `Foo<B>: Send` flips from false to true). DIFFERENTIAL for the real wrapper: on "
+                 "every run the printed log must lower, every goal must lower against it, both solvers must answer as on the original program, SuppressionFaithful is "
+                 "evaluated on (original, log), and the original answers of ground Horn goals are certified against the logged program's declarative meaning.",
+        "note": "The theorems are about the Horn-clause semantics (C01/C02 fragment: predicates = traits, atoms = trait references); they say a log that contains the reachable "
+                "clauses has the same MEANING, not that the real solvers consult exactly those clauses (the solvers are lazy: a failed first conjunct ends the search, so real logs "
+                "are smaller than `needs`; the answer comparison is therefore the oracle, not log >= needs). Associated-type and auto-trait programs are covered by the "
+                "differential part only, except for the item-level auto-trait lowering model (lowerAuto). F9a (suppressing explicit auto impl not recorded) reproduced by the "
+                "harness and in the model, repaired in /repo (commit 86f5b93, status fixed, regression inputs in corpus/C23 and tests/logging_db). F9b (open, classifier "
+                "logging_misses_goal_only_type): items that occur only in the goal and are never looked up are missing from the log, so the goal does not lower against it; not "
+                "repairable inside the wrapper (it never sees the goal); for those cases the harness declares the missing items and still compares the answers (they agreed in "
+                "every explored case; counter answers_equal_after_declaring_goal_only_items). Trusted: Lean kernel, horn.rs translation, Stage-A theorems, the harness.",
+        "correspondence": "real LoggingRustIrDatabase + SLG / recursive solvers on original vs printed program; Sem.evalGoal on horn(logged program) and on "
+                          "Logging.restrict (horn(original)) (Logging.needs ..) vs the real answers",
+    },
+    'C09': {
+        'level': 'other',
+        'rule': "MODEL lines: abstract instances are READ OFF THE REAL CODE (for every goal reachable from the root goals the harness asks chalk for the clauses solve_from_clauses would try - custom clauses, program_clauses_that_could_match, program_clauses_for_env, could_match filter - instantiates each against the goal with the real InferenceTable as Fulfill::new_with_clause does and canonicalizes the conditions as Fulfill::prove does; programs outside the abstraction of FixedPoint.lean are refused and counted) for three families: ground dependency graphs of <= 12 structs over an inductive and a #[coinductive] trait (chains with/without base case, diamonds, one cycle with/without base case entered through a tail, nested SCCs, two SCCs sharing nodes, random graphs; all-inductive / all-coinductive / mixed kinds; several impls per type), goals with unknowns (the F10 family: blanket impls `impl<X> Qi for X where X: Qj` + per trait no or >= 2 facts), and ProgGen programs with closed atomic goals whose goal closure is finite (<= 48 goals). One request line = one SCRIPT of calls on ONE real RecursiveSolver (cache on or off, overflow depth): per call the outcome kind (unique/none/ambig/panic:<site>), the hook's work counter and the hook-dumped cache must equal the model's, exactly. C09 scripts: histories of plain solves with cache on/off plus overflow depths 1,2,3,5 (overflow panics compared). ORACLE (both solvers, no model line): corpus/C09 first (F12, F18, F20 inputs, growing types `impl<T> Foo for T where Vec<T>: Foo`, polymorphic recursion `impl<T> Foo for Vec<T> where Vec<Vec<T>>: Foo`; every limit combination), then generated subjects (ground graphs, unknown-family, ProgGen with growing/polymorphic-recursive impls and 1/3 coinductive traits; 5 goals each: 2 shaped after impl headers with unknowns, 1 free-form with unknowns, 2 closed incl. not/forall/if) x 4 configurations drawn per subject: SLG default, SLG max_size in {3,4,6,10}, recursive default, recursive max_size in {4,8,15,30} x overflow depth in {20,50,100} x cache on/off. Every solve runs in a child process (sharded harness) under a work budget of 50000 steps installed in BOTH engines' cfg(chalk_verif) counters (solve_goal entries + fixed-point rounds; ensure_root_answer iterations) and a 30 s per-call watchdog that aborts the process (the parent reports the case in flight). Non-trivial = instance with a cycle or an outcome other than unique; distinct = distinct request lines",
+        'technique': "Lean 4 theorems about an executable model of the recursive solver's fixed-point/caching framework (bounding mechanisms: depth, loop exit, explicit work bound) + exact differential correspondence of outcome, work counter and cache with the real RecursiveSolver + deterministic work budgets on both real engines in child processes",
+        'claim': "PARTIAL by nature (a theorem cannot exhibit a hang of the real schedulers). Proved for the model, all instances: reached_fixed_point_ambig_stops (an ambiguous answer ends the loop of solve_new_subgoal in the same round, whatever fuel is left), fixedPoint_terminates (on the value domain noSolution < unique < ambig a MONOTONE iteration satisfies reached_fixed_point within 3 rounds, 2 from the initial values; fixedPoint_three_rounds_tight), termination_needs_monotone (a non-monotone iteration oscillates for ever: this is F18's negative cycle), work_bounded / call_work_bounded (explicit closed bound workBound(rounds, A, S, depth) on solve_goal entries + loop rounds of one call for every instance, state, oracle and outcome: the stack depth bound of Stack::push makes the nesting finite, each alternative solves each sub-goal at most twice), workBound_attained (the exponential shape is real without the cache: 30, 62, 126 steps for chains of 3, 4, 5 vs 11, 14, 17 with it = F20). The hypothesis 'finite height' is what fails for the real substitution-carrying Unique values (F12, remark in Props/C09.lean). OBSERVED on the real code: every solve of every generated subject under every drawn limit returned within the work budget or ended in the permitted recursive 'overflow depth reached' panic, except the known findings. An overflow panic is accepted because on a fresh solver the stack holds exactly the goals of the current search path, so Stack::push panics iff the search is that deep; it is cross-checked by re-running with 8x the depth (must overflow again or finish).",
+        'note': "Findings: F12 (recursive solver, coinductive goal with an unknown: answer grows for ever, native stack overflow) reproduced on the unchanged tree (budget / abort in the child process), REPAIRED in /repo (commit d4bc291: max_size test on the iteration's answer), regression input in corpus/C09. OPEN: F18 recursive_negative_cycle_diverges (lead's finding: cycle through negation never reaches a fixed point; SLG panics 'negative cycle was detected' = F18-slg), F20 recursive_nocache_exponential_reprove (cache disabled: work doubles per level of a growing goal, 2^(max_size+1)). NOT YET THEOREMS (differential only): monotonicity of the real iteration in the provisional answer (hence that 3 rounds suffice on every instance), absence of the model's assert-panics on cyclic instances, anything about the SLG engine's termination. Trusted: Lean kernel, model fidelity (differential, exact incl. work counter), the hooks' counters, harness.",
+        'correspondence': 'FixedPoint.{solveRootGoal, solveGoal, solveNewSubgoal, solveIteration, solveFromClauses, fulfillSolve} + hook tick (lean/ChalkModel/FixedPoint.lean) vs chalk_recursive::RecursiveSolver::solve_limited on instances read off program_clauses_that_could_match / InferenceTable (outcome kind, work counter, cache entries)',
+        'explanation': "bounding mechanisms proved on an exact model; the real engines' termination observed through deterministic work counters in child processes",
+    },
+    'C10': {
+        'level': 'proof',
+        'rule': "MODEL lines: abstract instances are READ OFF THE REAL CODE (for every goal reachable from the root goals the harness asks chalk for the clauses solve_from_clauses would try - custom clauses, program_clauses_that_could_match, program_clauses_for_env, could_match filter - instantiates each against the goal with the real InferenceTable as Fulfill::new_with_clause does and canonicalizes the conditions as Fulfill::prove does; programs outside the abstraction of FixedPoint.lean are refused and counted) for three families: ground dependency graphs of <= 12 structs over an inductive and a #[coinductive] trait (chains with/without base case, diamonds, one cycle with/without base case entered through a tail, nested SCCs, two SCCs sharing nodes, random graphs; all-inductive / all-coinductive / mixed kinds; several impls per type), goals with unknowns (the F10 family: blanket impls `impl<X> Qi for X where X: Qj` + per trait no or >= 2 facts), and ProgGen programs with closed atomic goals whose goal closure is finite (<= 48 goals). One request line = one SCRIPT of calls on ONE real RecursiveSolver (cache on or off, overflow depth): per call the outcome kind (unique/none/ambig/panic:<site>), the hook's work counter and the hook-dumped cache must equal the model's, exactly. C10 scripts: histories of 1-7 plain solves of root goals (repetitions included) with the cache on and the same history with the cache off. ORACLE (real code, SLG, recursive, recursive without cache; no model line): corpus/C10 first (F10, F13, F14, F17 inputs), then generated subjects (as C09 without growing impls), goal pool of <= 5: the fresh-solver answer of every goal, then ALL permutations of <= 4 goals (5 in the thorough tier), every goal twice, and 12 (40) random sequences of length 2-6 with repetitions, each posed to ONE solver instance; every answer must equal (==) the fresh solver's; recursive cache-on vs cache-off fresh answers must be equal. One failing history per solver and program is reported. Non-trivial = instance with a cycle or an outcome other than unique",
+        'technique': "Lean 4 theorems about an executable model of the recursive solver's fixed-point/caching framework (invariant over all call histories: cache soundness w.r.t. the instance's equations) + exact differential correspondence (outcome, work counter, cache contents) + exhaustive small histories on both real solvers",
+        'claim': "RECURSIVE framework, proof: cache_transparent_partial - for every acyclic instance (Ranked: any size, inductive/coinductive goals, goals with unknowns), every configuration with the F3/F7 repairs, every two histories of ARBITRARY calls (plain, interrupted by any oracle, panicking at any work step) on solvers with or without cache, two plain solves of the same goal that return give the same value (answer_is_semantic: the value the instance's equations determine). The full statement is refuted on the code as found (legacy_cache_transparent_refuted = F10, by decide on the 4-clause witness; f10_repaired) and is STILL refuted on the repaired code (cache_transparent_refuted, cache_on_off_refuted = F13 mixed cycles). The model agrees exactly with the real solver on every script incl. the F10 and F13 witnesses (pre-repair code checked against Cfg.legacy, repaired code against Cfg.current). SLG: differential only (translation validation against a fresh solver run).",
+        'note': "Findings: F10 reproduced on the unchanged tree, REPAIRED (commit 4106fc3), regression input in corpus/C10. OPEN: F13 recursive_mixed_cycle_cached (NEW: the error value of a mixed inductive/coinductive cycle is entry-point dependent but cached), F14 slg_coinductive_cycle_table_reuse (lead's), F17 slg_answer_order_depends_on_history (NEW: SLG aggregate depends on answer order, which depends on earlier queries; both answers sound). NOT YET THEOREMS (differential only): cache transparency for instances with inductive or coinductive cycles (no mixed cycles), equality of panics (with a cache a deep goal can be answered where a fresh solver overflows; the theorem speaks of calls that return), tables_keyed_by_goal for SLG. Trusted: Lean kernel, model fidelity (differential), instance extraction in fp.rs, harness.",
+        'correspondence': 'FixedPoint.runHistory / solveRootGoal with the persistent cache (lean/ChalkModel/FixedPoint.lean) vs one chalk_recursive::RecursiveSolver answering a history (outcome kind, work counter, Cache entries through the cfg(chalk_verif) accessor)',
+    },
+    'C11': {
+        'level': 'proof',
+        'rule': "MODEL lines: abstract instances are READ OFF THE REAL CODE (for every goal reachable from the root goals the harness asks chalk for the clauses solve_from_clauses would try - custom clauses, program_clauses_that_could_match, program_clauses_for_env, could_match filter - instantiates each against the goal with the real InferenceTable as Fulfill::new_with_clause does and canonicalizes the conditions as Fulfill::prove does; programs outside the abstraction of FixedPoint.lean are refused and counted) for three families: ground dependency graphs of <= 12 structs over an inductive and a #[coinductive] trait (chains with/without base case, diamonds, one cycle with/without base case entered through a tail, nested SCCs, two SCCs sharing nodes, random graphs; all-inductive / all-coinductive / mixed kinds; several impls per type), goals with unknowns (the F10 family: blanket impls `impl<X> Qi for X where X: Qj` + per trait no or >= 2 facts), and ProgGen programs with closed atomic goals whose goal closure is finite (<= 48 goals). One request line = one SCRIPT of calls on ONE real RecursiveSolver (cache on or off, overflow depth): per call the outcome kind (unique/none/ambig/panic:<site>), the hook's work counter and the hook-dumped cache must equal the model's, exactly. C11 scripts: for a root goal with n callback calls in a clean run, first call = solve_limited with the callback false from its k-th call on, k = 0..n+1 (capped at 12; set VERIF_FP_NONMONOTONE for 'false at the k-th call only' in the model lines too), or always false; then a second limited solve (callback false at its 2nd call), a plain solve of the same goal and of another goal; cache on and off. ORACLE (real code, SLG, recursive, recursive without cache): corpus/C11 first (F3, F16 inputs), generated subjects as C10; per goal every schedule - false ONLY at call k and false FROM call k on for k = 0..n+1 (capped 16 / 60), always, never - on a fresh solver: the limited answer must be the full answer or Ambig; then a second limited solve, solve(goal), solve(other goal) on the same instance must equal the fresh answers. A later difference that the same history WITHOUT interruption also shows is attributed to the C10 finding it reproduces. Non-trivial as C10",
+        'technique': 'Lean 4 theorems about the executable model with the should_continue oracle at the head of solve_iteration + exact differential correspondence + exhaustive interruption schedules on both real solvers',
+        'claim': "RECURSIVE framework, proof (acyclic instances, repaired code, every history, every oracle): interrupt_weaker_partial (an interrupted call that returns gives the fresh solver's answer or ambig), interrupt_then_fresh_partial (after any history of interrupted or panicking calls an uninterrupted solve returns the fresh solver's answer). Refutations by decide: legacy_interrupt_then_fresh_refuted (F3), legacy_unwrap_panics (F16), and interrupt_then_fresh_refuted on the REPAIRED code for all instances (through F13, not through interruption). SLG: differential only.",
+        'note': "Findings: F3 reproduced on the unchanged tree, REPAIRED (commit 9fd4e00); F16 (NEW: unwrap of NoSolution in the last pass of Fulfill::solve under a callback that says stop once and then go on) reproduced (cache off on the unchanged tree; always after the F3 repair), REPAIRED (commit 241c13c); regression inputs in corpus/C11. C10's open findings F13, F14, F17 are also reported here when a history exercises them. NOT YET THEOREMS (differential only): both sentences for instances with cycles; makeSolution_interrupt for SLG. The model's last-pass test `constrained_subst().is_some()` is `v = unique` (exact when every ambig is Ambig(Unknown)); the model lines therefore use monotone oracles by default (0 disagreements were also observed with non-monotone ones).",
+        'correspondence': 'FixedPoint.runCall with Call.oracle / Call.dflt (should_continue test of solve_iteration, interrupted flag) vs RecursiveSolver::solve_limited with a scripted callback',
+    },
+    'C12': {
+        'level': 'proof',
+        'rule': "MODEL lines: abstract instances are READ OFF THE REAL CODE (for every goal reachable from the root goals the harness asks chalk for the clauses solve_from_clauses would try - custom clauses, program_clauses_that_could_match, program_clauses_for_env, could_match filter - instantiates each against the goal with the real InferenceTable as Fulfill::new_with_clause does and canonicalizes the conditions as Fulfill::prove does; programs outside the abstraction of FixedPoint.lean are refused and counted) for three families: ground dependency graphs of <= 12 structs over an inductive and a #[coinductive] trait (chains with/without base case, diamonds, one cycle with/without base case entered through a tail, nested SCCs, two SCCs sharing nodes, random graphs; all-inductive / all-coinductive / mixed kinds; several impls per type), goals with unknowns (the F10 family: blanket impls `impl<X> Qi for X where X: Qj` + per trait no or >= 2 facts), and ProgGen programs with closed atomic goals whose goal closure is finite (<= 48 goals). One request line = one SCRIPT of calls on ONE real RecursiveSolver (cache on or off, overflow depth): per call the outcome kind (unique/none/ambig/panic:<site>), the hook's work counter and the hook-dumped cache must equal the model's, exactly. C12 scripts: for a root goal with w work steps in a clean run, first call panics at work step b for b = 0..min(w,40) (the hook's budget = an injected panic between any two database callbacks that see different contexts), optionally a second panicking call, then plain solves of the goal and two more goals; cache on and off. ORACLE (real code; SLG, recursive; recursive without cache in the thorough tier): a RustIrDatabase wrapper (all methods delegated to the lowered Program, incl. interner and unification_database; program_clauses_for_env re-enters the wrapper) counts every callback; corpus/C12 first (F7, F19 inputs), generated subjects as C10; per goal N = callbacks of a clean solve (quick: N <= 150, thorough: <= 2000): for EVERY n = 1..N a fresh solver, the n-th callback panics (catch_unwind), in 1/4 of the cases a second injected panic during a later solve, then the SAME instance answers the goal and two further goals: answers must equal the fresh solver's, a panic is a failure. Non-trivial as C10",
+        'technique': 'Lean 4 theorems about the executable model with a panic transition that leaves stack and search graph as they are + exact differential correspondence (budget panics) + exhaustive crash-point enumeration on both real solvers',
+        'claim': "RECURSIVE framework, proof: root_ignores_leftovers (repaired code, ALL instances: solve_root_goal behaves as from an empty stack and search graph whatever a panic left), usable_after_panic_partial + cache_sound_after_panics (acyclic instances: after any history of calls panicking at any work step the cache holds only semantic values and a solve returns the fresh solver's answer), legacy_panic_before_push_partial (code as found: usable exactly when the panic precedes the first push). Refutations by decide: legacy_recursive_usable_after_panic_refuted (F7), usable_after_panic_refuted on the REPAIRED code for all instances (through F13). SLG: differential only - and it FAILS: F19.",
+        'note': "Findings: F7 (recursive half) reproduced on the unchanged tree, REPAIRED (commit c6d16f6), regression input in corpus/C12. OPEN: F19 slg_strand_lost_after_panic (the SLG half of DESIGN F7, now CONFIRMED by the crash-point enumeration: a strand held in a local of ensure_root_answer is dropped by the unwinding, later solves answer No solution), plus C10's F13/F14/F17 when a history exercises them. NOT YET THEOREMS (differential only): instances with cycles; the SLG strand-ownership state machine (no_strand_lost) is not modelled. Crash points are database callbacks; panics raised inside chalk itself are not injected. Trusted: Lean kernel, model fidelity, the counting wrapper, harness.",
+        'correspondence': "FixedPoint.runCall with Call.budget (panic at a work step; no unwinding cleanup) followed by further calls vs one RecursiveSolver under the hook's work budget; real solvers under a counting/panicking RustIrDatabase wrapper vs fresh solvers",
     },
 }
